@@ -6,6 +6,8 @@ import (
 	"fmt"
 	"regexp"
 	"strings"
+	"sync"
+	"sync/atomic"
 	"time"
 
 	"github.com/scrapli/scrapligo/driver/opoptions"
@@ -14,6 +16,7 @@ import (
 	"verif/internal/devsim"
 	"verif/internal/mon"
 	"verif/internal/scen"
+	"verif/internal/yield"
 )
 
 // Desc is one stall case.
@@ -26,6 +29,10 @@ type Desc struct {
 	S        int        `json:"s"`
 	Want     string     `json:"want"`
 	DryErr   string     `json:"dry_err,omitempty"`
+	CmdAt    int        `json:"cmd_at"`
+	// YieldPoint (setting "conn+yield"): the first goroutine arriving at this library yield point is
+	// held for the connection-wide timeout plus 60 ms - a schedule a loaded machine could produce.
+	YieldPoint string `json:"yield_point,omitempty"`
 }
 
 // Timeout settings:
@@ -120,13 +127,28 @@ func run(c mon.Case) mon.Result {
 
 func runOnce(d Desc, sc *scen.Scenario) mon.Result {
 	t00 := time.Now()
+	var yarm *atomic.Bool
 	connWide := tShort
 	var perOp []util.Option
 	expectSuccess := false
 	var resumeAfter time.Duration
 	T := tShort
+	var held time.Duration
 	switch d.Setting {
 	case "conn":
+	case "conn+yield":
+		held = tShort + 60*time.Millisecond
+		var once sync.Once
+		pt := d.YieldPoint
+		armed := new(atomic.Bool)
+		yield.Install(func(p string) {
+			if p == pt && armed.Load() {
+				once.Do(func() { time.Sleep(held) })
+			}
+		})
+		defer yield.Install(nil)
+		defer func() { armed.Store(false) }()
+		yarm = armed
 	case "perop":
 		connWide = 4 * time.Second
 		perOp = []util.Option{opoptions.WithTimeoutOps(tShort), scen.WithCallbackTimeout(tShort)}
@@ -169,6 +191,9 @@ func runOnce(d Desc, sc *scen.Scenario) mon.Result {
 			Events: tail(s.Conn.Log(), 40), NonTrivial: true}
 	}
 	before := libIDs()
+	if yarm != nil {
+		yarm.Store(true)
+	}
 	hang := 20 * T
 	if hang < T+5*time.Second {
 		hang = T + 5*time.Second
@@ -236,11 +261,25 @@ func runOnce(d Desc, sc *scen.Scenario) mon.Result {
 		}
 		isTimeout := errors.Is(r.err, util.ErrTimeoutError)
 		isPriv := errors.Is(r.err, util.ErrPrivilegeError)
-		if !isTimeout && !(isPriv && sc.PrivErrOK) {
+		if sc.PrivErrOK && d.Setting == "conn+yield" {
+			// the held goroutine may make either phase run into its deadline
+			if !isTimeout && !isPriv {
+				return viol("c05/error-class:"+d.Scenario, "expected a timeout or privilege error, got %q", r.err)
+			}
+		} else if sc.PrivErrOK && d.CmdAt >= 0 {
+			// the stall hit the implicit privilege change iff it began before the user's own command
+			// could be typed
+			if d.K < d.CmdAt && !isPriv {
+				return viol("c05/error-class:implicit-privilege-change:"+d.Scenario, "the stall (byte %d) is inside the implicit privilege change (complete at byte %d): expected a privilege error, got %q", d.K, d.CmdAt, r.err)
+			}
+			if d.K >= d.CmdAt && !isTimeout {
+				return viol("c05/error-class:"+d.Scenario, "the stall (byte %d) is inside the user's command (typed at byte %d): expected a timeout error, got %q", d.K, d.CmdAt, r.err)
+			}
+		} else if !isTimeout {
 			return viol("c05/error-class:"+d.Scenario, "expected a timeout error, got %q", r.err)
 		}
 		tags = append(tags, "err="+map[bool]string{true: "timeout", false: "privilege"}[isTimeout])
-		if el > T+slack {
+		if el > T+slack+held {
 			if mon.LoadedSince(t00) {
 				return mon.Result{Verdict: mon.Inconclusive, Detail: fmt.Sprintf("load: returned after %s under load", el)}
 			}
@@ -373,9 +412,28 @@ func gen(tier string, seed int64) []mon.Case {
 		}
 		for si, seg := range segs {
 			for k := 0; k <= st.S; k++ {
-				add(Desc{Scenario: sc.Name, K: k, Setting: "conn", Seg: seg, Base: st.Base, S: st.S, Want: st.Want})
+				add(Desc{Scenario: sc.Name, K: k, Setting: "conn", Seg: seg, Base: st.Base, S: st.S, Want: st.Want, CmdAt: st.CmdAt})
 				if sc.PerOp && (tier == "thorough" || k%2 == 0) {
 					add(Desc{Scenario: sc.Name, K: k, Setting: "perop", Seg: seg, Base: st.Base, S: st.S, Want: st.Want})
+				}
+			}
+			if si == 0 && yield.Available {
+				// a caller (or reader) goroutine held at a yield point past the deadline
+				pts := []string{"chan.op.read.enter", "chan.op.read.after-errs-poll", "chan.read.after-transport-read"}
+				if sc.Driver == "netconf" && !sc.IsOpen {
+					pts = append(pts, "nc.rpc.before-wait", "nc.read.after-channel-read")
+				}
+				ks := []int{0, st.S / 2, st.S - 1}
+				if tier != "thorough" {
+					ks = []int{st.S / 2}
+				}
+				for _, pt := range pts {
+					for _, k := range ks {
+						for rep := 0; rep < 3; rep++ {
+							add(Desc{Scenario: sc.Name, K: k, Setting: "conn+yield", YieldPoint: pt, Seg: devsim.Seg{Mode: seg.Mode, Size: seg.Size, Seed: seg.Seed + int64(rep)},
+								Base: st.Base, S: st.S, Want: st.Want, CmdAt: st.CmdAt})
+						}
+					}
 				}
 			}
 			if sc.PerOp && si == 0 {
